@@ -144,19 +144,23 @@ def _blocks(root):
 
 
 def structure(tree):
-    """(1) `if c: ..terminator  else: B` -> `if c: ..terminator` ; B     (else after return / raise / continue / break is dropped)
+    """(1) `if c: ..terminator  else: B` -> `if c: ..terminator` ; B     (else after return / raise / continue / break is dropped;
+           `if c: B else: ..terminator` is first turned round)
        (2) in tail position of a loop body: `if c: continue` ; REST  ->  `if not c: REST`   (guard clauses become nesting)
        (3) `if p: (if q: S)` without else on either -> `if p and q: S`
        (4) `if c: A..return/raise` ; REST..return/raise  ->  `if not c: REST` ; A   when `not c` has the better polarity"""
     def and_values(t):
         return list(t.values) if isinstance(t, ast.BoolOp) and isinstance(t.op, ast.And) else [t]
 
-    def block(blk, loop_tail):
+    def block(blk, loop_tail, elif_arm=False):
         i = 0
         while i < len(blk):
             st = blk[i]
             last = i == len(blk) - 1
             if isinstance(st, ast.If):
+                if st.orelse and _terminates(st.orelse) and not _terminates(st.body) and not elif_arm and \
+                        not (len(st.orelse) == 1 and isinstance(st.orelse[0], ast.If)):     # (1b) the terminating arm becomes the guard
+                    st.test, st.body, st.orelse = NNF().visit(_negate(st.test)), st.orelse, st.body
                 if st.orelse and _terminates(st.body):                                   # (1)
                     tail = st.orelse
                     st.orelse = []
@@ -183,7 +187,7 @@ def structure(tree):
                     last = True
                 block(st.body, loop_tail and last)
                 if st.orelse:
-                    block(st.orelse, loop_tail and last)
+                    block(st.orelse, loop_tail and last, elif_arm=len(st.orelse) == 1 and isinstance(st.orelse[0], ast.If))
                 while not st.orelse and len(st.body) == 1 and isinstance(st.body[0], ast.If) and not st.body[0].orelse:     # (3)
                     inner = st.body[0]
                     st.test = ast.copy_location(ast.BoolOp(op=ast.And(), values=and_values(st.test) + and_values(inner.test)), st.test)
@@ -414,8 +418,8 @@ def _effect_free_stmt(s):
         return effect_free(s.value)
     if isinstance(s, ast.If):
         return effect_free(s.test) and all(_effect_free_stmt(x) for x in s.body + s.orelse)
-    if isinstance(s, ast.Pass):
-        return True
+    if isinstance(s, (ast.Pass, ast.Return, ast.Raise, ast.Continue, ast.Break)):
+        return True          # after a terminator nothing of this block is evaluated any more
     return False
 
 
@@ -523,8 +527,10 @@ def inline_temps(tree):
        - every use of t is in the header expressions (not the nested blocks) of later statements of the same block, evaluated
          unconditionally and before any effect of its statement; t is not used in a nested function;
        - one use and e arbitrary: the use is in the NEXT statement and only names / constants are evaluated before it;
-       - e effect-free (reads, arithmetic, pure builtins / numpy / pure methods): any number of uses; the statements between the
-         definition and the last use are effect-free assignments to other locals that bind no name e reads."""
+       - e effect-free (reads, arithmetic, pure builtins / numpy / pure methods): the use may be any later statement; the statements
+         between the definition and the last use are effect-free assignments to other locals that bind no name e reads;
+       - several uses: only when e is a reference (name, attribute / constant-subscript chain, constant), which gives the same object
+         each time - an expression that builds a new object is never duplicated."""
     for fn in [n for n in ast.walk(tree) if isinstance(n, (ast.FunctionDef, ast.AsyncFunctionDef))]:
         for _ in range(8):
             if not _inline_temps_once(fn):
@@ -592,6 +598,9 @@ def _inline_temps_once(fn):
                 i += 1
                 continue
             pure = effect_free(e)
+            if loads[t] > 1 and not _reference_expr(e):
+                i += 1          # evaluated several times it would give several objects: only references may be duplicated
+                continue
             reads = {x.id for x in ast.walk(e) if isinstance(x, ast.Name)}
             found, ok, j = [], True, i + 1
             while j < len(blk) and len(found) < loads[t]:
@@ -634,6 +643,20 @@ def _inline_temps_once(fn):
                     loads[x.id] = loads.get(x.id, 0) + max(len(found) - 1, 0)
         # next block
     return changed
+
+
+def _reference_expr(e):
+    """evaluates to the same object every time (nothing in between having an effect): names, attribute / constant-subscript chains,
+    constants"""
+    if isinstance(e, (ast.Name, ast.Constant)):
+        return True
+    if isinstance(e, ast.Attribute):
+        return _reference_expr(e.value)
+    if isinstance(e, ast.Subscript):
+        return _reference_expr(e.value) and _reference_expr(e.slice) and not isinstance(e.slice, ast.Slice)
+    if isinstance(e, ast.UnaryOp) and isinstance(e.operand, ast.Constant):
+        return True
+    return False
 
 
 def _own_blocks(fn):
